@@ -8,17 +8,28 @@
    disabled pick is a stutter).  `bad` is set by the model exactly where one of the code's state-invariant panics would
    fire (ping.Add(n) <> n, a counter decremented below zero).  Statements only.
 
-   Not modelled here (see the harness scenarios C06K2/C06S for the tie to the code): the SubscribeContext iterator's
-   AfterFunc/stop pairing (an iterator subscriber is, for the protocol, a subscriber that unsubscribes once — the pairing
-   is what guarantees "once"; it is exercised on the real code by the harness styles iter_cancel / iter_break /
-   iter_never_run / iter_cancel_then_run), checkBroken/markBroken and the `broken` channel (reachable only after a panic,
-   and C07_no_false_panic shows there is none), Add(0), deltas with |delta| > 1 (a subscriber = one unit), closing the
-   channel.  The int32 overflow detection of sanityCheckSubscribersDelta is proved separately over explicit 32-bit
-   wrap-around (C07_sanity_detects_wrap). *)
+   Granularity: PubSubAbs fuses (a) subscribers.Load + ping.Add(subscribers) [S4], (b) the Load/CAS arming loop of
+   ChanCaster.Send [S5] and (c) its final Load + CAS [S7].  Model/PubSubSplit.v splits each of them into the individual atomic
+   operations, with the sender's (possibly stale) local values explicit and a `bad` transition for every check the code makes on
+   them; the C07_split_* theorems re-establish the invariant and all consequences there, and show that the windows are real
+   (without the write lock a subscriber gets into the Load/CAS window and the CAS fails).
+
+   SubscribeContext: Model/PubSubIter.v is a finite-control model of the AfterFunc/stop pairing (canceller, AfterFunc goroutine,
+   two invocations of the iterator; the Once of context.AfterFunc is atomic as in the standard library).  The C07_iterator_*
+   theorems show that x.Unsubscribe is called at most once in every state and exactly once in every terminal state in which the
+   context was cancelled or the iterator function was called, unless an invocation is still consuming — for every order of
+   cancel / iterator start / early exit (break, panic, Goexit, closed channel), for a nil yield, and when the iterator is never
+   run.  An iterator subscriber is therefore, for the protocol, a subscriber that unsubscribes (at most) once, which is what
+   PubSubAbs assumes of every subscriber.
+
+   Not modelled (see the harness scenarios C06K2/C06S for the tie to the code): checkBroken/markBroken and the `broken` channel
+   (reachable only after a panic, and C07_no_false_panic shows there is none), Add(0), deltas with |delta| > 1 (a subscriber =
+   one unit), closing the channel.  The int32 overflow detection of sanityCheckSubscribersDelta is proved separately over
+   explicit 32-bit wrap-around (C07_sanity_detects_wrap). *)
 From Coq Require Import List Arith ZArith Bool.
-From BB.Model Require Import PubSubAbs.
+From BB.Model Require Import PubSubAbs PubSubSplit PubSubIter.
 From BB.Model Require PubSubSanity.
-From BB.Proofs Require PubSubAbs PubSubC06 PubSubSanity.
+From BB.Proofs Require PubSubAbs PubSubC06 PubSubSanity PubSubSplit PubSubSplitTerm PubSubIter.
 Import ListNotations.
 
 (* No reachable state takes a panic transition: ping.Add(subscribers) returns subscribers (the caster word was 0), the
@@ -111,3 +122,138 @@ Theorem C07_sanity_silent_under_contract : forall old delta : Z,
   PubSubSanity.sanity_check (PubSubSanity.add_subscribers old delta) delta = 0%Z.
 Proof. exact Proofs.PubSubSanity.sanity_silent_in_range. Qed.
 Print Assumptions C07_sanity_silent_under_contract.
+
+(* ---- finer granularity: Model/PubSubSplit.v -------------------------------------------------------------------------- *)
+
+(* With subscribers.Load / ping.Add, the arming Load / CAS loop and the final Load / CAS as SEPARATE steps (the sender's local
+   copies explicit, a panic transition for every check made on them): still no reachable state takes a panic transition, and no
+   copy goes to a subscriber the Send did not count. *)
+Theorem C07_split_no_false_panic : forall senders subscribers sched,
+  let s := xrun (xinit senders subscribers) sched in xv s bad = 0 /\ xv s steal = 0.
+Proof. exact Proofs.PubSubSplit.split_no_false_panic_no_steal. Qed.
+Print Assumptions C07_split_no_false_panic.
+
+(* The invariant of the split model (that of PubSubAbs plus, per new pc, what the stale locals still guarantee: at X4b
+   l4 = subscribers and the caster is untouched; at X5b the caster count can only have dropped below l5; at X7b l7 = the caster
+   count and nobody is left who could change it) holds in every reachable state. *)
+Theorem C07_split_invariant : forall senders subscribers sched,
+  Proofs.PubSubSplit.XInv (xrun (xinit senders subscribers) sched).
+Proof. exact Proofs.PubSubSplit.XInv_run. Qed.
+Print Assumptions C07_split_invariant.
+
+(* Deadlock freedom at the finer granularity. *)
+Theorem C07_split_deadlock_free : forall senders subscribers sched,
+  let s := xrun (xinit senders subscribers) sched in
+  xquiescentb s = true -> Proofs.PubSubSplit.xall_returned s.
+Proof. exact Proofs.PubSubSplit.split_deadlock_free. Qed.
+Print Assumptions C07_split_deadlock_free.
+
+Theorem C07_split_final_count : forall senders subscribers sched,
+  let s := xrun (xinit senders subscribers) sched in
+  xquiescentb s = true ->
+  xv s subs = xv s b0n /\ xv s cnt = 0 /\ xv s armed = 0 /\ xv s pongN = 0 /\ xv s w = 0 /\ xv s r = 0.
+Proof. exact Proofs.PubSubSplit.split_final_count. Qed.
+Print Assumptions C07_split_final_count.
+
+(* Termination at the finer granularity, CAS retry loop included: a failed CAS (X5b -> X5a) means a counted subscriber left
+   through the caster since the Load, and the measure charges the sender for the loaded value. *)
+Theorem C07_split_measure_decreases : forall s p s',
+  Proofs.PubSubSplit.XInv s -> xstep s p = Some s' -> Proofs.PubSubSplitTerm.xmeasure s' < Proofs.PubSubSplitTerm.xmeasure s.
+Proof. exact Proofs.PubSubSplitTerm.split_measure_decreases. Qed.
+Print Assumptions C07_split_measure_decreases.
+
+Theorem C07_split_every_run_finite : forall senders subscribers sched,
+  Proofs.PubSubSplitTerm.xmoves (xinit senders subscribers) sched <= 14 * senders + 8 * subscribers + 4 * (senders * subscribers).
+Proof. exact Proofs.PubSubSplitTerm.split_every_run_finite. Qed.
+Print Assumptions C07_split_every_run_finite.
+
+(* The Load/CAS window is real: without the write lock (same step function, fl_wlock = false) a subscriber joins during
+   delivery and leaves between the final Load and the CAS; the CAS fails = the "unregistered receivers" panic. *)
+Theorem C07_split_cas_window_without_write_lock_refuted : exists sched,
+  xv (xrun_gen Proofs.PubSubAbs.no_wlock_flags (xinit 1 2) sched) bad = 1.
+Proof. exact Proofs.PubSubSplit.split_cas_window_without_wlock_refuted. Qed.
+Print Assumptions C07_split_cas_window_without_write_lock_refuted.
+
+Theorem C07_split_unsubscribe_not_routed_through_caster_refuted : exists sched,
+  let s := xrun_gen Proofs.PubSubAbs.no_route_flags (xinit 1 1) sched in
+  forallb (fun p => match xstep_gen Proofs.PubSubAbs.no_route_flags s p with Some _ => false | None => true end) all_picks = true /\
+  xp s <> XNone.
+Proof. exact Proofs.PubSubSplit.split_no_route_refuted. Qed.
+Print Assumptions C07_split_unsubscribe_not_routed_through_caster_refuted.
+
+(* ---- SubscribeContext: Model/PubSubIter.v ------------------------------------------------------------------------------ *)
+
+(* No double Unsubscribe (which would panic with "negative subscribers" or silently take another subscriber's unit): for every
+   program (context cancelled or not; each of two invocations of the iterator function never made / nil yield / run until
+   Done() / run and left early by break, panic, Goexit or closed channel) and every schedule of the canceller, the AfterFunc
+   goroutine and the invocations, x.Unsubscribe() has been called at most once. *)
+Theorem C07_iterator_unsubscribes_at_most_once : forall pg sched,
+  unsubs (irun pg iinit sched) <= 1.
+Proof. exact Proofs.PubSubIter.iter_at_most_once. Qed.
+Print Assumptions C07_iterator_unsubscribes_at_most_once.
+
+(* In every terminal state (nothing left to run) the number of Unsubscribe calls is 1 if (the context was cancelled or the
+   iterator function was called) and no invocation is still inside the receive loop, and 0 otherwise. *)
+Theorem C07_iterator_terminal_count : forall pg sched,
+  let s := irun pg iinit sched in
+  iterminalb pg s = true -> unsubs s = Proofs.PubSubIter.final_unsubs (ic s).
+Proof. exact Proofs.PubSubIter.iter_terminal_count. Qed.
+Print Assumptions C07_iterator_terminal_count.
+
+(* No leak: cancelling the context (iterator never run, not yet entered, or running), leaving the iterator early, or calling it
+   with a nil yield all end with exactly one Unsubscribe. *)
+Theorem C07_iterator_no_leak : forall pg sched,
+  let s := irun pg iinit sched in
+  iterminalb pg s = true -> (ctxd (ic s) = true \/ invoked (ic s) = true) -> in_use (ic s) = false ->
+  unsubs s = 1.
+Proof. exact Proofs.PubSubIter.iter_no_leak. Qed.
+Print Assumptions C07_iterator_no_leak.
+
+(* Never unsubscribed behind the user's back: context live and iterator never called (the documented "MUST be used immediately
+   OR the context MUST be cancelled" case), or an invocation still consuming => no Unsubscribe. *)
+Theorem C07_iterator_not_unsubscribed_while_untouched_or_in_use : forall pg sched,
+  let s := irun pg iinit sched in
+  iterminalb pg s = true -> (ctxd (ic s) = false /\ invoked (ic s) = false) \/ in_use (ic s) = true ->
+  unsubs s = 0.
+Proof. exact Proofs.PubSubIter.iter_untouched_or_in_use_not_unsubscribed. Qed.
+Print Assumptions C07_iterator_not_unsubscribed_while_untouched_or_in_use.
+
+(* ... and the only terminal states with an invocation inside the loop are the legitimate ones: live context, loop body that
+   never stops early (a cancelled context or an early exit always gets the invocation out of the loop). *)
+Theorem C07_iterator_in_use_is_live : forall pg sched,
+  let s := irun pg iinit sched in
+  iterminalb pg s = true ->
+  (in_loop (i1 (ic s)) = true -> ctxd (ic s) = false /\ early (use1 pg) = false) /\
+  (in_loop (i2 (ic s)) = true -> ctxd (ic s) = false /\ early (use2 pg) = false).
+Proof. exact Proofs.PubSubIter.iter_in_use_is_live. Qed.
+Print Assumptions C07_iterator_in_use_is_live.
+
+(* Contract clause 7 for iterator subscribers: while an invocation is inside the receive loop nobody has unsubscribed (in
+   particular the AfterFunc goroutine never unsubscribes under a consuming iterator), and at most one invocation consumes. *)
+Theorem C07_iterator_no_receive_after_unsubscribe : forall pg sched,
+  let s := irun pg iinit sched in in_use (ic s) = true -> unsubs s = 0.
+Proof. exact Proofs.PubSubIter.iter_no_receive_after_unsub. Qed.
+Print Assumptions C07_iterator_no_receive_after_unsubscribe.
+
+Theorem C07_iterator_one_invocation_in_loop : forall pg sched,
+  let s := irun pg iinit sched in in_loop (i1 (ic s)) = true -> in_loop (i2 (ic s)) = true -> False.
+Proof. exact Proofs.PubSubIter.iter_one_invocation_in_loop. Qed.
+Print Assumptions C07_iterator_one_invocation_in_loop.
+
+Theorem C07_iterator_every_run_finite : forall pg sched,
+  Proofs.PubSubIter.imoves pg iinit sched <= 11.
+Proof. exact Proofs.PubSubIter.iter_every_run_finite. Qed.
+Print Assumptions C07_iterator_every_run_finite.
+
+(* Mutations (same step function): an iterator that defers Unsubscribe without consulting stop() unsubscribes twice when the
+   context was cancelled first; without the AfterFunc a cancelled, never-run iterator leaks its subscription. *)
+Theorem C07_iterator_ignoring_stop_refuted : exists pg sched,
+  unsubs (irun_gen Proofs.PubSubIter.ignore_stop_flags pg iinit sched) = 2.
+Proof. exact Proofs.PubSubIter.iter_ignoring_stop_refuted. Qed.
+Print Assumptions C07_iterator_ignoring_stop_refuted.
+
+Theorem C07_iterator_without_afterfunc_refuted : exists pg sched,
+  let s := irun_gen Proofs.PubSubIter.no_after_flags pg iinit sched in
+  iterminalb_gen Proofs.PubSubIter.no_after_flags pg s = true /\ ctxd (ic s) = true /\ unsubs s = 0.
+Proof. exact Proofs.PubSubIter.iter_without_afterfunc_refuted. Qed.
+Print Assumptions C07_iterator_without_afterfunc_refuted.
